@@ -15,6 +15,7 @@ C09 - rendering keeps the text.  Claimed for ONE clause only: docstring fields a
   R09.13 a width cut from the front of every line of a block is computed over all of its lines
   R09.17 the title docutils promotes to document title (a lone top-level section) is still rendered in the body
   R09.18 the translator does not spell a character of the text as an entity the XML re-parse rejects (U+00A0 -> &nbsp;)
+  R09.19 the indentation a literal block is measured against is re-read from the paragraph token when a helper built that paragraph with an indentation of its own
   R09.16 a field handler that keeps ONE text per entry (FieldHandler slots; extract_fields for the tags FieldHandler leaves to it) reports a second field
          for the same entry before it overwrites the first
   R09.15 verbatim epytext tokens (literal and doctest blocks) are cut from their lines by one line-independent width
@@ -176,7 +177,24 @@ def run(repo: Repo, chk: Check, thorough: bool = False) -> None:
         ok = a in read_fmt or (a in read_rt and 'parameter_descs' in read_fmt)
         chk.ob('R09.2', f'{FH}.{a} :: rendered', ok, 'read by format()' if a in read_fmt else 'merged into parameter_descs by resolve_types()' if ok else
                f'handlers store fields in self.{a} but format() never reads it: those fields are not shown', fmt.loc)
-    chk.require('R09.2', 9)
+    # ... and each on its own: whether one accumulator is shown does not depend on another one (`elif self.yields_desc:` after the Returns block hides the
+    # yield text of every generator that also documents a return value)
+    cf_fmt = CFG(fmt)
+    n_ind = 0
+    for c in calls_in(fmt):
+        mine = {x.attr for a in c.args for x in ast.walk(a) if isinstance(x, ast.Attribute) and dotted(x.value) == 'self' and x.attr in accs}
+        if not mine or not call_name(c).startswith('format_'):
+            continue
+        n_ind += 1
+        others = sorted({x.attr for t, pol in cf_fmt.dominating_tests(cf_fmt.stmt_of(c)) for x in ast.walk(t)
+                         if isinstance(x, ast.Attribute) and dotted(x.value) == 'self' and x.attr in accs and x.attr not in mine})
+        chk.ob('R09.2', f'{FH}.format :: self.{"/".join(sorted(mine))} is rendered whatever the other accumulators hold', not others,
+               'no test of another accumulator on the way' if not others else
+               f'rendered only under a test of self.{others[0]}: a docstring that has both kinds of field loses the text of this one without a warning',
+               repo.loc(fmt.mod, c))
+    if n_ind < 4:
+        raise AnalysisError(f'R09.2: {n_ind} renderings of an accumulator found in FieldHandler.format (Parameters, Returns, Yields, Raises, Warns confirmed)')
+    chk.require('R09.2', 12)
     ok = any(call_name(c) == 'resolve_types' for c in calls_in(fd))
     chk.ob('R09.2', 'epydoc2stan.format_docstring :: types merged before rendering', ok, 'fh.resolve_types() for functions', fd.loc)
 
@@ -432,6 +450,18 @@ def run(repo: Repo, chk: Check, thorough: bool = False) -> None:
                    f'groups {groups}' if not missing else
                    f'group(s) {missing} of `{rx.args[0].value}` are matched but not re-emitted: that part of the source text (e.g. the run of blanks between `def` '
                    'and the name) is replaced or lost in doctest and code blocks', repo.loc(f.mod, a))
+    # the other way to take a token apart: a white-space split (`kw, name = text.split()`) whose pieces are emitted again.  The blanks between the pieces are
+    # not among them - whatever is emitted in their place is not the source text (doctest and code blocks are reproduced character for character)
+    for f in sorted((g for g in repo.funcs.values() if g.mod is dm), key=lambda g: g.qn):
+        emits = any(isinstance(x, (ast.Yield, ast.YieldFrom)) for x in f.walk()) or any(call_name(c) in ('append', 'extend', 'join') for c in calls_in(f))
+        for c in calls_in(f):
+            if call_name(c) == 'split' and isinstance(c.func, ast.Attribute) and not c.args and not c.keywords and emits:
+                par = getattr(c, '_parent', None)
+                if isinstance(par, (ast.Assign, ast.For, ast.comprehension, ast.Starred, ast.Call)):
+                    n_rx11 += 1
+                    chk.ob('R09.11', f'{f.qn} :: a token is not taken apart at white space', False,
+                           f'`{norm(par)[:60]}` splits the matched text at any run of blanks and re-emits the pieces: the blanks themselves (`def   spam`, `class  Ham`) are replaced '
+                           'by whatever the code puts between the pieces - doctest and code blocks are no longer reproduced character for character', repo.loc(f.mod, c))
     if n_rx11 < 1:
         raise AnalysisError('R09.11: no token regex with named groups is taken apart in pydoctor.epydoc.doctest any more (DEFINE_FUNC_RE confirmed)')
     chk.require('R09.11', 1)
@@ -605,6 +635,7 @@ def run(repo: Repo, chk: Check, thorough: bool = False) -> None:
     check_r09_16(repo, chk)
     check_r09_17(repo, chk)
     check_r09_18(repo, chk)
+    check_r09_19(repo, chk)
     # ------------------------------------------------------------------ R09.7
     # a reST directive that declares a body (has_content = True) consumes it whatever its arguments are: every normal path through
     # run() passes through a statement that reads self.content
@@ -806,3 +837,67 @@ def check_r09_18(repo: Repo, chk: Check) -> None:
            'with a no-break space (`Prix\u00a0: 10\u00a0EUR`, in any markup) is reported as "bad docstring: SAXParseException ... undefined entity" and shown as plain text with '
            'its markup left in; a literal with two blanks (``a  b``) and a block-quote attribution (&mdash;) fail the same way', tr.loc)
     chk.require('R09.18', 1)
+
+
+def check_r09_19(repo: Repo, chk: Check) -> None:
+    # a literal block is measured against the paragraph that introduces it (`tokens[-1]`, a PARA ending in `::`): the indentation handed to _tokenize_literal has
+    # to be that paragraph's.  _tokenize_para builds its PARA token with the indentation it was given; a helper that builds a PARA token with an indentation of
+    # its OWN (the first paragraph of a list item, indented behind the bullet) leaves the caller's variable behind - after such a call every path to the
+    # literal-block call has to re-read the indentation from the token (under nothing but a None test)
+    tk = repo.funcs.get(f'{EPY}._tokenize')
+    if tk is None:
+        raise AnalysisError('R09.19: epytext._tokenize not found')
+    lit = [c for c in calls_in(tk) if call_name(c) == '_tokenize_literal' and len(c.args) >= 3 and isinstance(c.args[2], ast.Name)]
+    if not lit:
+        raise AnalysisError('R09.19: the call _tokenize_literal(lines, linenum, <indent>, ...) was not found in epytext._tokenize')
+    own: Set[str] = set()
+    for g in repo.funcs.values():
+        if g.mod is not tk.mod:
+            continue
+        prm = {a.arg for a in g.params()}
+        for c in calls_in(g):
+            if call_name(c) == 'Token' and len(c.args) >= 4 and norm(c.args[0]).endswith('Token.PARA') and not (isinstance(c.args[3], ast.Name) and c.args[3].id in prm):
+                own.add(g.name)
+    if not own:
+        raise AnalysisError('R09.19: no helper that builds a PARA token with an indentation of its own was found (_tokenize_listart confirmed)')
+    cfg = CFG(tk)
+    n = 0
+    for lc in lit:
+        v = lc.args[2].id  # type: ignore[attr-defined]
+        writes = [a for a in tk.walk() if isinstance(a, (ast.Assign, ast.AugAssign, ast.AnnAssign)) and
+                  any(isinstance(t, ast.Name) and t.id == v for t in (a.targets if isinstance(a, ast.Assign) else [a.target]))]
+        resync = [a for a in writes if isinstance(a, ast.Assign) and isinstance(a.value, ast.Attribute) and a.value.attr == 'indent' and isinstance(a.value.value, ast.Subscript)]
+        none_false = []
+        for nid, edges in cfg.succ.items():
+            for (t, l, k) in edges:
+                if l is None:
+                    continue
+                e, pol = l
+                while isinstance(e, ast.UnaryOp) and isinstance(e.op, ast.Not):
+                    e, pol = e.operand, not pol
+                if isinstance(e, ast.Compare) and len(e.ops) == 1 and isinstance(e.comparators[0], ast.Constant) and e.comparators[0].value is None and \
+                        isinstance(e.left, ast.Attribute) and e.left.attr == 'indent' and \
+                        ((isinstance(e.ops[0], ast.IsNot) and not pol) or (isinstance(e.ops[0], ast.Is) and pol)):
+                    none_false.append((nid, id(t), k))
+        for c in calls_in(tk):
+            if call_name(c) not in own:
+                continue
+            n += 1
+            st = cfg.stmt_of(c)
+            stale = False
+            for (t, l, k) in cfg.succ.get(id(st), []):
+                if k == 'exc':
+                    continue
+                r = cfg.reachable(t, avoid_nodes=[w for w in writes if w is not st], avoid_edges=none_false, no_exc=True)
+                if id(cfg.stmt_of(lc)) in r:
+                    stale = True
+            chk.ob('R09.19', f'{tk.qn} :: after {call_name(c)}() the literal block is measured against the paragraph the helper built', not stale,
+                   f'every path to _tokenize_literal re-reads `{v}` from the last token' if not stale else
+                   f'a path from `{call_name(c)}(...)` reaches `_tokenize_literal(..., {v}, ...)` with `{v}` still holding the indentation of the bullet (the re-reading is missing or '
+                   'under a test of its own): in a list item whose first paragraph wraps and ends in `::`, the literal block swallows the following blocks of the item - their '
+                   'inline markup is shown raw and nothing is reported', repo.loc(tk.mod, c))
+        if not resync:
+            chk.note(f'R09.19: no `{v} = tokens[-1].indent` statement in _tokenize')
+    if n < 1:
+        raise AnalysisError('R09.19: _tokenize calls no helper that builds a paragraph token with its own indentation')
+    chk.require('R09.19', 1)
